@@ -116,3 +116,103 @@ class InterpolationInit(Unit):
 
 
 UNITS = [InterpolationInit()]
+
+
+# ---- the same constructor in the ORDER model (IEEE-sound: arithmetic uninterpreted, comparisons exact): the case analysis that snaps
+# ---- the base point onto a bound or moves it one radius away has no gap *in floating point*.  The REAL-model proof above cannot see
+# ---- a rewriting that is an identity over the reals but not over the floats (x <= xl + r/2  versus  x - xl <= r/2) -------------------
+class FrameOnly(RangeLoop):
+    names = ()
+
+
+def models_shadow_order():
+    if "mo" not in _SH:
+        _SH["mo"] = shadow("cobyqa.models", specs={"interp.frame": FrameOnly()}, cuts={("Interpolation.__init__", 0): ("interp.frame", "frame")},
+                           expect_loops={"Interpolation.__init__": 1})
+    return _SH["mo"]
+
+
+class BasePointSnap(Unit):
+    name = "interp.base_point_snap"
+    props = ("C01",)
+    fmodel = "ORDER"
+    functions = [("cobyqa.models", "Interpolation.__init__")]
+    assumptions = ["the placement loop is replaced by a frame-only cut here (its invariant is proved in interp.interpolation_init, REAL model)"]
+
+    def run(self, c):
+        from cobyqa.settings import Options
+        m = models_shadow_order()
+        n = z3.Int(c.fresh_name("n"))
+        npt = z3.Int(c.fresh_name("npt"))
+        c.assume(z3.And(n >= 1, npt >= n + 1))
+        xl = vecs.fresh_vec("xl", n, finite=True)
+        xu = vecs.fresh_vec("xu", n, finite=True)
+        x0 = vecs.fresh_vec("x0", n, finite=True)
+        pb = types.SimpleNamespace(bounds=types.SimpleNamespace(xl=xl, xu=xu), x0=x0, n=SI(n))
+        rb0, re0 = SF.fresh("radius_init", finite=True), SF.fresh("radius_final", finite=True)
+        c.assume(z3.And(rb0.r > 0, re0.r >= 0, re0.r <= rb0.r))
+        opts = {Options.DEBUG.value: False, Options.RHOBEG.value: rb0, Options.RHOEND.value: re0, Options.NPT.value: SI(npt)}
+        I_ = m.Interpolation
+        ip = I_.__new__(I_)
+        kind, res = call_expecting(c, "C08.interpolation_init", lambda: ip.__init__(pb, opts), ())
+        rho = SF.lift(opts[Options.RHOBEG])
+        i = z3.Int(c.fresh_name("vcx_any"))
+        z = ip._x_base.at(i)
+        l, u = xl.at(i), xu.at(i)
+        T2, U2 = l + rho, u - rho                      # the very expressions of the code (same uninterpreted terms)
+        from pyvc.values import np_min2, np_max2
+        lo_target, hi_target = np_min2(T2, u), np_max2(U2, l)
+        snapped_low = z3.Or(feq(z, l), feq(z, lo_target), tobool(z > T2))
+        c.oblige("C01.interpolation_init.base_point_snapped_or_a_radius_away",
+                 z3.Implies(z3.And(0 <= i, i < n),
+                            z3.Or(feq(z, u), feq(z, hi_target), z3.And(tobool(z < U2), snapped_low))),
+                 props=["C01"],
+                 note="a coordinate of the base point is neither snapped onto a bound nor moved one radius away from it: the case "
+                      "analysis (very close / close / interior) has a gap in floating point")
+
+
+UNITS.append(BasePointSnap())
+
+
+# ---- bounded complement: the thresholds of the case analysis on concrete floats ------------------------------------------------------
+class ThresholdCases(Unit):
+    """The ORDER-model unit above refutes nothing definitely when the case analysis is rewritten (the solvers answer `unknown` on
+    the quantified float axioms), and a counter-model of the uninterpreted arithmetic would not be a pair of floats anyway.  The real
+    constructor is therefore also run on seeded starting points placed exactly on (and one ulp around) the four thresholds
+    xl + r/2, xl + r, xu - r/2, xu - r for bounds with inexact decimal values."""
+    name = "interp.bounded_thresholds"
+    props = ("C01",)
+    fmodel = "ORDER"
+    functions = [("cobyqa.models", "Interpolation.__init__")]
+    replay = ("contracts.replays", "interpolation_points_inside")
+    bounded = "native run-time contract on 2000 seeded starting points on / one ulp around the four thresholds of the base-point case analysis"
+
+    def run(self, c):
+        import numpy as np
+        from pyvc.transform import ensure_repo_on_path
+        from .subsolvers_bounded import rng_for
+        from .replays import interpolation_points_inside
+        ensure_repo_on_path()
+        rng = rng_for(self.name)
+        bad = None
+        N = 2000
+        with np.errstate(all="ignore"):
+            for k in range(N):
+                n = int(rng.integers(1, 4))
+                rho = float(rng.choice([1.0, 0.2, 0.5, 0.1, 2.0, 0.3]) * rng.choice([1.0, 1.0, 10.0 ** rng.integers(-3, 4)]))
+                xl = np.round(rng.uniform(-3, 3, n), int(rng.integers(1, 4)))
+                xu = xl + np.round(rng.uniform(2.0, 6.0, n) * rho, 3) + 2.0 * rho
+                x0 = xl + rng.uniform(0.0, 1.0, n) * (xu - xl)
+                j = int(rng.integers(0, n))
+                th = [xl[j] + 0.5 * rho, xl[j] + rho, xu[j] - 0.5 * rho, xu[j] - rho][int(rng.integers(0, 4))]
+                x0[j] = [th, np.nextafter(th, np.inf), np.nextafter(th, -np.inf)][int(rng.integers(0, 3))]
+                x0 = np.clip(x0, xl, xu)
+                case = dict(xl=xl.tolist(), xu=xu.tolist(), x0=x0.tolist(), radius_init=rho, npt=2 * n + 1)
+                r = interpolation_points_inside(**case)
+                if r["reproduced"] and bad is None:
+                    bad = (k, case, r["observed"])
+        c.oblige(f"C01.interpolation_init.points_inside_bounds_at_the_thresholds[{N} cases]", z3.BoolVal(bad is None), kind="bounded", props=["C01"],
+                 note=None if bad is None else f"case {bad[0]}: {bad[1]} -> {bad[2]}", replay_inputs=None if bad is None else bad[1])
+
+
+UNITS.append(ThresholdCases())
